@@ -134,7 +134,7 @@ m = {
    {"name": "oci", "path": "/verif/lib/oci.py", "serves_properties": ["C13"],
     "kind_free_text": "TLC (tla/Gen_Oci) + replay on pkg/runtime-tools/generate (harness/ocidrv) + TLC trace validation (tla/Trace_Oci)"},
    {"name": "relay", "path": "/verif/lib/relay.py", "serves_properties": ["C06", "C07", "C08", "C17", "C19"],
-    "kind_free_text": "TLC model checking (tla/MC_Relay over tla/Relay), recording driver (harness/relaydrv, hooks pkg/vhook), TLC trace validation (tla/Trace_Relay)"},
+    "kind_free_text": "TLC model checking (tla/MC_Relay over tla/Relay), Apalache inductive invariant for exactly-once under any number of held sync blocks (tla/SyncOnceInd, C08), recording driver (harness/relaydrv, hooks pkg/vhook), TLC trace validation (tla/Trace_Relay)"},
    {"name": "adjust", "path": "/verif/lib/adjust.py", "serves_properties": ["C01", "C02", "C03", "C04", "C05"],
     "kind_free_text": "TLC model checking + scenario emission (tla/Gen_Adjust), replay on the real code (harness/adjdrv), TLC trace validation (tla/Trace_Adjust)"},
  ],
